@@ -11,6 +11,7 @@ import (
 	"fmt"
 	"mime/multipart"
 	"net/http/httptest"
+	"net/textproto"
 	"net/url"
 	"strconv"
 	"strings"
@@ -272,4 +273,38 @@ func runForm(c *C06Form) (sig, detail string) {
 		cause = "undeclared-field" // dropped before additionalProperties: false could reject it
 	}
 	return "form:" + c.Enc + ":body-violating-the-schema-accepted:" + cause, ""
+}
+
+// multipart parts with a Content-Transfer-Encoding: the value a part encodes is its
+// transfer-decoded content (quoted-printable is the one encoding mime/multipart undoes)
+func runFormTransferEncoding() (sig, detail string) {
+	for _, tc := range []struct{ text, qp string }{{"café a=b", "caf=C3=A9 a=3Db"}, {"x=1", "x=3D1"}, {"plain", "plain"}, {"two\r\nlines", "two\r\nlines"}} {
+		var body bytes.Buffer
+		w := multipart.NewWriter(&body)
+		h := textproto.MIMEHeader{}
+		h.Set("Content-Disposition", `form-data; name="s"`)
+		h.Set("Content-Transfer-Encoding", "quoted-printable")
+		pw, _ := w.CreatePart(h)
+		pw.Write([]byte(tc.qp))
+		w.Close()
+		s := openapi3.NewObjectSchema().WithProperty("s", openapi3.NewStringSchema().WithEnum(tc.text))
+		rb := openapi3.NewRequestBody().WithContent(openapi3.Content{"multipart/form-data": openapi3.NewMediaType().WithSchema(s)})
+		op := openapi3.NewOperation()
+		op.RequestBody = &openapi3.RequestBodyRef{Value: rb}
+		op.Responses = openapi3.NewResponses()
+		item := &openapi3.PathItem{Post: op}
+		doc := &openapi3.T{OpenAPI: "3.0.0", Info: &openapi3.Info{Title: "t", Version: "1"}, Paths: openapi3.NewPaths()}
+		route := &routers.Route{Spec: doc, Path: "/f", PathItem: item, Method: "POST", Operation: op}
+		req := httptest.NewRequest("POST", "/f", bytes.NewReader(body.Bytes()))
+		req.Header.Set("Content-Type", w.FormDataContentType())
+		in := &openapi3filter.RequestValidationInput{Request: req, Route: route, Options: &openapi3filter.Options{SkipSettingDefaults: true}}
+		var err error
+		if pn := catchPanic(func() { err = openapi3filter.ValidateRequestBody(context.Background(), in, rb) }); pn != nil {
+			return "form:multipart:panic", fmt.Sprint(pn)
+		}
+		if err != nil {
+			return "form:multipart:transfer-encoded-part-not-decoded", fmt.Sprintf("part %q (quoted-printable for %q) against enum [%q]: %v", tc.qp, tc.text, tc.text, err)
+		}
+	}
+	return "", ""
 }
